@@ -15,7 +15,7 @@ PROPERTY = "C04"
 LEVEL = "exploration"
 NEED_EXT = True
 REQUIRED = ["rows.single", "rows.subset", "rows.permutation", "rows.repeat", "state.unchanged", "pickle",
-            "clone_with_fitted_parameters", "exception.balanced_predictions", "asan.criterion_copy", "accessors.pure", "rows.buffer_refilled_in_place", "poisoned_allocator", "upstream.rowwise_calls_judged", "second_life.copies", "refusing_local.batches"]
+            "clone_with_fitted_parameters", "exception.balanced_predictions", "asan.criterion_copy", "accessors.pure", "rows.buffer_refilled_in_place", "poisoned_allocator", "upstream.rowwise_calls_judged", "second_life.copies", "refusing_local.batches", "rows.earlier_result_kept"]
 RULE = ("every registered class with row-wise methods x configurations x label sets x batches made of training rows, "
         "perturbed rows, far rows (buckets / cells / leaves unseen at training time), exact duplicates and a single "
         "row; non-trivial = batch with >= 2 distinct rows routed to different buckets or classes; distinct = distinct "
@@ -201,6 +201,18 @@ def run_rows(case, ctx):
                             if again.shape != full.shape or not all(
                                     row_equal(full[i], again[i], integer) for i in range(n)):
                                 ctx.violation(K + "%s/repeated-call-differs" % m, "two identical calls differ", cfg=c2)
+                        if ok and n >= 2:
+                            # a result the caller still holds is not overwritten by the next call (single rows:
+                            # featurising a table row by row and stacking the results)
+                            r0 = spec.outputs(est, take(Q, [0]), [m])[m]
+                            keep0 = numpy.array(r0, copy=True)
+                            r1 = spec.outputs(est, take(Q, [n - 1]), [m])[m]
+                            ctx.hit("rows.earlier_result_kept")
+                            if not row_equal(keep0, r0, integer) or (
+                                    isinstance(r0, numpy.ndarray) and isinstance(r1, numpy.ndarray)
+                                    and r0.size and numpy.shares_memory(r0, r1)):
+                                ctx.violation(K + "%s/earlier-result-overwritten" % m, "the result of a call on one row "
+                                              "changed when the next row was asked: results share a buffer", cfg=c2)
                         if ok and isinstance(Q, numpy.ndarray) and Q.dtype == numpy.float64:
                             # a batch of another floating type in between (float32 sensors): the model answers the
                             # float64 batch afterwards as it did before
